@@ -71,8 +71,7 @@ def encOptB : Option Bytes → String
 def renderContent : Option Content → String
   | none => "x"
   | some (.body b) => "b" ++ encOptB b
-  | some (.mform l) => "m" ++ encPairs l
-  | some (.uform l) => "u" ++ encPairs l
+  | some (.form l) => "f" ++ (if l.isEmpty then "-" else ",".intercalate (l.map (fun p => (if p.1 then "m" else "u") ++ encB p.2.1 ++ ":" ++ encB p.2.2)))
 
 def renderKey (k : MKey) : String :=
   "|".intercalate [encB k.scheme, encB k.method, encB k.path, renderContent k.content,
